@@ -8,28 +8,41 @@ From Verif Require Import Base.Word256 C03.LIR C03.ArithSpec C03.WordArith C03.T
 Import ListNotations.
 Open Scope Z_scope.
 
-Theorem legacy_arith_exact : forall op T t, In (op, T, t) legacy_templates ->
-  forall x y, in_range T x -> in_range T y ->
+Lemma opd_ea sh lit x y : (sh = 1 -> x = lit) -> opd (env2 x y) (ea_of sh lit) x.
+Proof.
+  intros H. unfold ea_of. destruct (Z.eqb_spec sh 1) as [E|E]; [rewrite <- (H E); apply opd_lit | apply opd_x].
+Qed.
+Lemma opd_eb sh lit x y : (sh = 2 -> y = lit) -> opd (env2 x y) (eb_of sh lit) y.
+Proof.
+  intros H. unfold eb_of. destruct (Z.eqb_spec sh 2) as [E|E]; [rewrite <- (H E); apply opd_lit | apply opd_y].
+Qed.
+
+(* shape sh: 0 = both operands in IR variables; 1 = x is the literal lit; 2 = y is the literal lit *)
+Theorem legacy_arith_exact : forall op T sh lit t, In (op, T, sh, lit, t) legacy_templates ->
+  forall x y, in_range T x -> in_range T y -> (sh = 1 -> x = lit) -> (sh = 2 -> y = lit) ->
   leval (env2 x y) t = enc_out (arith_spec T op x y).
 Proof.
-  intros op T t HIn x y Hx Hy.
+  intros op T sh lit t HIn x y Hx Hy Lx Ly.
   pose proof tie_arith_legacy as Tie. rewrite forallb_forall in Tie. specialize (Tie _ HIn).
   unfold tie_one in Tie. apply andb_true_iff in Tie. destruct Tie as [Ok M].
-  apply ty_okb_ok in Ok.
-  destruct op; cbn [model] in M; try discriminate M;
-    try (apply lir_eqb_eq in M; subst t).
-  - apply safe_add_exact; assumption.
-  - apply safe_sub_exact; assumption.
-  - apply safe_mul_exact; assumption.
-  - apply safe_div_exact; assumption.
-  - apply safe_mod_exact; assumption.
-  - destruct (nsigned T) eqn:S; [|discriminate M]. apply lir_eqb_eq in M; subst t.
-    apply usub_exact; assumption.
+  apply andb_true_iff in Ok. destruct Ok as [Ok _]. apply ty_okb_ok in Ok.
+  apply existsb_exists in M. destruct M as [m [Mm E]]. apply lir_eqb_eq in E. subst t.
+  pose proof (opd_ea sh lit x y Lx) as Oa. pose proof (opd_eb sh lit x y Ly) as Ob.
+  destruct op; cbn [models] in Mm.
+  - apply in_map_iff in Mm. destruct Mm as [b [<- _]]. apply safe_add_exact; assumption.
+  - apply in_map_iff in Mm. destruct Mm as [b [<- _]]. apply safe_sub_exact; assumption.
+  - apply in_flat_map in Mm. destruct Mm as [b1 [_ Mm]]. apply in_map_iff in Mm. destruct Mm as [b2 [<- _]].
+    apply safe_mul_exact; assumption.
+  - apply in_map_iff in Mm. destruct Mm as [b [<- _]]. apply safe_div_exact; assumption.
+  - destruct Mm as [<- | []]. apply safe_mod_exact; assumption.
+  - destruct (nsigned T) eqn:S; [|destruct Mm]. destruct (sh =? 0); cbn [andb] in Mm; [|destruct Mm].
+    destruct Mm as [<- | []]. apply usub_exact; assumption.
+  - destruct Mm.
 Qed.
 Print Assumptions legacy_arith_exact.
 
 Theorem legacy_family_complete :
-  map fst legacy_templates = expected_keys /\ List.length legacy_templates = 358%nat.
+  map fst legacy_templates = expected_keys /\ List.length legacy_templates = 3573%nat.
 Proof. split; [exact family_complete_legacy | reflexivity]. Qed.
 
 (* int_clamp_iff: the clamp passes, returning the word unchanged, iff the word is canonical for the type *)
@@ -53,7 +66,8 @@ Definition key_eqb (a b : aop * nty) : bool :=
 Definition outcome_eqb (a b : outcome) : bool :=
   match a, b with Val x, Val y => x =? y | Revert, Revert => true | Unit, Unit => true | _, _ => false end.
 Definition has_case (op : aop) (T : nty) (x y : Z) (o : outcome) : bool :=
-  existsb (fun p => key_eqb (fst p) (op, T) && outcome_eqb (leval (env2 x y) (snd p)) o) legacy_templates.
+  existsb (fun p => match p with (o', T', sh, _, t) =>
+                      key_eqb (o', T') (op, T) && (sh =? 0) && outcome_eqb (leval (env2 x y) t) o end) legacy_templates.
 
 Example legacy_nonvacuous :
   let i8 := Build_nty 1 true false in
